@@ -36,6 +36,7 @@ SEEDS = [
     ("[null, null]", [("INDEX", 0)], 1), ("{a: {b: 1, c: 1}}", [("KEY", "a"), ("KEY", "b")], 2),
     ("{a: 1.5}", [("KEY", "a")], 100.0), ("{a: &A1 true, b: *A1}", [("KEY", "a")], "zz"),
     ("{a: [&A x, y], b: [*A, x]}", [("KEY", "a"), ("INDEX", 0)], 7),
+    ("[{a: &A2 'true'}, [{a: ab, b: *A2}]]", [("SEARCH", True, "=~", "b", "1"), ("KEY", "a")], 100.0),
 ]
 
 
